@@ -20,6 +20,9 @@ def NormalR : List Range → Prop
 /-- the address is stored -/
 def MemR (a : Nat) (bl : List Range) : Prop := ∃ b ∈ bl, b.1 ≤ a ∧ a < b.2
 
+instance (a : Nat) (bl : List Range) : Decidable (MemR a bl) := by
+  unfold MemR; infer_instance
+
 theorem NormalR.tail {b : Range} {r : List Range} (h : NormalR (b :: r)) : NormalR r := by
   cases r with
   | nil => trivial
